@@ -1,6 +1,7 @@
 package props
 
 import (
+	"bytes"
 	"fmt"
 	"os"
 
@@ -24,7 +25,7 @@ func init() {
 			"known fixed-length meta events are generated with their spec length (tempo 3 bytes non-zero, etc.)",
 			"header length is 6 (statement)",
 		},
-		Require: []string{"files", "feat:running_status", "feat:padded_vlq", "feat:f0_without_f7", "feat:f7_packet", "feat:unknown_meta", "feat:long_payload", "feat:alien_before", "feat:alien_between", "feat:alien_after", "feat:smpte", "decoder_crosschecks", "events_compared", "messages_classified", "pipe_reads"},
+		Require: []string{"files", "feat:running_status", "feat:padded_vlq", "feat:f0_without_f7", "feat:f7_packet", "feat:unknown_meta", "feat:long_payload", "feat:alien_before", "feat:alien_between", "feat:alien_after", "feat:smpte", "decoder_crosschecks", "events_compared", "messages_classified", "pipe_reads", "reads_with_log_option"},
 		Run:     runC02,
 	})
 }
@@ -93,6 +94,20 @@ func c02Check(c *mon.Ctx, f *ref.EncFile, label string) {
 	if diff := ref.EqualFiles(truth, got); diff != "" {
 		c.Violation("content", fmt.Sprintf("ReadFrom differs from the specification decoder (%s): %s", label, diff), in, describeFile(truth, 30), describeFile(got, 30))
 		return
+	}
+	// the Log read option must not change what is read
+	if (len(b)%3 == 0 && len(b) < 3000) || (len(b) > 1200 && len(b) < 20000) {
+		var sl *smf.SMF
+		var lerr error
+		lg := &nullLogger{}
+		if !c.Guard("panic:ReadFrom+Log", in, func() { sl, lerr = smf.ReadFrom(bytes.NewReader(b), smf.Log(lg)) }) {
+			c.Count("reads_with_log_option", 1)
+			if lerr != nil {
+				c.Violation("read-error-log", fmt.Sprintf("ReadFrom with the Log option rejects a spec-valid file (%s): %v", label, lerr), in, "value", lerr.Error())
+			} else if diff := ref.EqualFiles(truth, fromLib(sl)); diff != "" {
+				c.Violation("content-log", "ReadFrom with the Log option differs from the specification decoder: "+diff, in, nil, nil)
+			}
+		}
 	}
 	// files above 4 KiB are also read through a real pipe (an *os.File that cannot seek)
 	if len(b) > 4200 {
